@@ -68,3 +68,11 @@ package bft
 //@ func (*BFT).GetMajorityVote
 //@   callsite AggregateSignatures requires[maj23] voteSet.TotalVotedPower >= b.ValidatorSet.MinimumMaj23
 //@   ensures[none] !isnil(err) ==> m == nil && sig == nil
+
+// ---- C01: lock before the PRECOMMIT vote -----------------------------------------------------------------------
+// the PRECOMMIT vote leaves only after the proposal passed the proposer/proposal check and the replica's
+// lock IS the certificate of the message being voted on (so the lock carries this round's view: a
+// re-proposed block re-locks at the later round) together with the block and results it stands for
+//@ func (*BFT).StartPrecommitVotePhase
+//@   callsite SendToProposer requires[checked] msg != nil && !interrupt
+//@   callsite SendToProposer requires[locked] b.HighQC != nil && b.HighQC == msg.Qc && b.HighQC.Block == b.Block && b.HighQC.Results == b.Results
